@@ -351,7 +351,9 @@ pub fn main_for(prop: &'static str, rule: &str) {
     let args = Args::parse();
     driver::install_panic_hook();
     crate::crash::install();
-    let ledger = std::env::var("RT_HOST_NO_LEDGER").is_err();
+    // under Miri the allocation ledger costs more than everything else; Miri's
+    // own leak check (leak-clean shards) and the native ledger cover leaks
+    let ledger = std::env::var("RT_HOST_NO_LEDGER").is_err() && (!cfg!(miri) || std::env::var("RT_HOST_LEDGER").is_ok());
     crate::alloc::set_tracking(ledger);
     if let Ok(v) = std::env::var("RT_HOST_TRAP_SIZE") {
         crate::alloc::TRAP_SIZE.store(v.parse().unwrap_or(usize::MAX), std::sync::atomic::Ordering::Relaxed);
@@ -400,9 +402,9 @@ pub fn main_for(prop: &'static str, rule: &str) {
     let shard = args.u64("shard", 0);
     let of = args.u64("of", 1).max(1);
     let plan = Plan {
-        depth: args.u64("depth", if thorough { 8 } else { 6 }) as usize,
-        max_exhaustive: args.u64("max-exhaustive", if thorough { 400_000 } else { 40_000 }),
-        random: args.u64("random", if thorough { 200_000 } else { 4_000 }),
+        depth: args.u64("depth", if thorough { 7 } else { 6 }) as usize,
+        max_exhaustive: args.u64("max-exhaustive", if thorough { 150_000 } else { 40_000 }),
+        random: args.u64("random", if thorough { 60_000 } else { 4_000 }),
     };
     let only = args.get("scenario").map(|s| s.to_string());
     let out_path: &'static String = Box::leak(Box::new(args.out()));
